@@ -68,7 +68,7 @@ def main():
                 for t in range(N):
                     e = ev_update(t, sample_at(w, t), order=order)
                     if extra:
-                        e["extra"] = {"zz": 1.0}
+                        e["extra"] = {"zz": 1.0}; e["extra_at"] = rng.choice([0, 0, 1, 9])
                     evs.append(e)
             dt.append(case([o], evs, kind=kind, skip=["evaluate.viol", "update.viol"]))
         else:
@@ -81,15 +81,41 @@ def main():
             if kind == "ct_off":
                 e = ev_ct("evaluate", w, order=order)
                 if extra:
-                    e["extra"] = {"zz": [[0, 1.0], [end, 2.0]]}
+                    e["extra"] = {"zz": [[0, 1.0], [end, 2.0]]}; e["extra_at"] = rng.choice([0, 0, 1, 9])
                 evs = [ev_parse(), e]
+                if rng.random() < 0.3:
+                    evs.append(dict(e))             # a second evaluate() of the same object with the same arguments
             else:
                 evs = [ev_parse()] + ([ev_pastify()] if kind == "ct_past" else [])
                 e = ev_ct("update", w, order=order)         # single update: outside the chunking findings
                 if extra:
-                    e["extra"] = {"zz": [[0, 1.0], [end, 2.0]]}
+                    e["extra"] = {"zz": [[0, 1.0], [end, 2.0]]}; e["extra_at"] = rng.choice([0, 0, 1, 9])
                 evs.append(e)
             ct.append(case([o], evs, kind=kind))
+    # dense-time online, several update() calls, every arithmetic operator with a constant on either side (a constant delivers
+    # its signal once, so from the second update on that operand's batch is empty) and between two signals fed by lagging batches
+    import c05 as _c05
+    for i in range(n // 6):
+        S = 2
+        opn = rng.choice(["add", "sub", "mul", "div", "div", "div"])
+        kc = rng.choice([1, 2]) * S                                   # divisors 1, 2 (and their negations) and even samples: exact at scale 2
+        K = (lambda: un("neg", const(kc))) if rng.random() < 0.3 else (lambda: const(kc))
+        shape = rng.random()
+        if shape < 0.4:
+            t_ = bi(opn, var("x"), K())
+        elif shape < 0.7:
+            t_ = bi(opn, K(), var("x")) if opn != "div" else bi(opn, const(4 * S), un("abs", bi("add", un("abs", var("x")), const(S))))
+        else:
+            t_ = bi(opn, var("x"), var("y")) if opn != "div" else bi(opn, var("x"), bi("add", un("abs", var("y")), const(S)))
+        phi = pred(rng.choice(["ge", "le", "eq"]), t_, const(rng.choice([0, 1]) * S))
+        if rng.random() < 0.4:
+            phi = rng.choice([un("once", phi), un("onceT", phi, 0, 1), bi("and", phi, pred("ge", var("x"), const(0)))])
+        vs = vars_of(phi)
+        end = rng.choice([3, 4, 6])
+        w = {v: [[t, 2 * rng.randint(-2, 2) * (S // 2 or 1)] for t in sorted(set([0, end] + rng.sample(range(1, end), rng.choice([1, 2]))))] for v in vs}
+        sc = {v: rng.choice(_c05.splits(len(w[v]))) for v in vs}
+        o = ct_obj(phi, S, vs, factory=rng.choice(["StlDenseTimeSpecification", "StlDenseTimeOnlineSpecification"]))
+        ct.append(case([o], [ev_parse()] + _c05.schedule_events(w, sc, 1), kind="ct_on"))
     rep_cases = 0
     for nm, cs, mod in (("C17_dt", dt, "TraceDt"), ("C17_ct", ct, "TraceCt")):
         tr = runner.run_cases(cs)
